@@ -27,6 +27,8 @@ PROFILE = scenario.profile(
     maxD=3, extra_budget=(10, 90), cons_x0=("margin",), p_cons=0.15,
     max_iter_choices=(None,), tol_mesh_choices=(None, None, 1e-6, 1e-3, 0.1, 0.125, 0.0625, 0.5),
     noise_modes=("none", "none", "none", "auto", "declared", "specified"),
+    # rarely used but supported controller options: unlocked search mesh, few searches per iteration
+    extra_opts=(("search_size_locked", (False,), 0.15), ("search_n_try", (0, 1, 2), 0.15)),
 )
 PROFILE_T = dict(PROFILE, maxD=6, extra_budget=(10, 300))
 N = {"quick": 224, "thorough": 4000}
@@ -88,6 +90,20 @@ def oracle(scn, tr):
         else:
             success = any(ev["z"] > suff for ev in poll_imps)
             fval_after = x["fval"]
+            # noisy modes: the value judged must be the GP estimate at the polled point (an independent look at the last
+            # single-point GP prediction made before the improvement was evaluated), not the raw observation
+            evs = tr.events[s["events_lo"]:]
+            for ev in poll_imps:
+                pos = next(i for i, e2 in enumerate(evs) if e2 is ev)
+                pred = next((e2 for e2 in reversed(evs[:pos]) if e2.get("type") == "predict1"), None)
+                lc = next((e2 for e2 in reversed(evs[:pos]) if e2.get("type") == "logger_call"), None)
+                if pred is None or lc is None:
+                    continue
+                evals += 1
+                if np.array_equal(pred["x"], lc["u"]) and not (ev["f_new"] == pred["mu"] or (np.isnan(ev["f_new"]) and np.isnan(pred["mu"]))):
+                    v.append(viol("b:noisy-poll-not-judged-on-gp-estimate", f"poll {s['k']}: improvement evaluated on {ev['f_new']!r} but the GP "
+                                  f"estimate at the polled point is {pred['mu']!r} (raw observation {tr.calls[lc['call'] - 1]['y']!r})"))
+                    break
         it = e["iter"]
         if success:
             want = [min(e["k"] + 1, CAP)]
@@ -159,7 +175,7 @@ def oracle(scn, tr):
 
 
 def body(scn):
-    tr = harness.run(scn, want=("improve",))
+    tr = harness.run(scn, want=("improve", "logger"))
     v, evals, nt, labs = oracle(scn, tr)
     labs = harness.run_labels(scn, tr) + labs + ["natural"]
     if nt:
@@ -172,7 +188,7 @@ def body(scn):
 def body_scripted(case):
     scn, oc = case["scn"], case["script"]
     ss = scripts.make_search_script(case["search"]) if case.get("search") else None
-    tr = harness.run(scn, want=("improve",), script=scripts.make_value_script(oc), search_script=ss)
+    tr = harness.run(scn, want=("improve", "logger"), script=scripts.make_value_script(oc), search_script=ss)
     v, evals, nt, labs = oracle(scn, tr)
     labs = [("scripted:" + l) for l in labs] + ["scripted"]
     if nt:
